@@ -219,6 +219,35 @@ def prog(env, case):
             v = float(c.eval())
             ok = v <= 2e-3 * scale if c.equality_or_inequality == 'inequality' else abs(v) <= 2e-3 * scale
             env.check(ok, "sent constraint violated at the returned instance: %g" % v, signature=tag + ":primal-feasible")
+    # ---- (c'') every entry of every sent LMI, evaluated at the solver's (G, F), IS the entry of the PSD matrix variable the
+    #      solver reports for that LMI (so the matrix as written is symmetric and PSD at the returned instance)
+    if env.sym and pep._list_of_psd_sent_to_wrapper:
+        from vf.denote import den_expr_gram
+        sv = stub.solves[-1]
+        if backend == 'cvxpy':
+            import cvxpy as _cp
+            Gvar, Fvar = pep.wrapper.G, pep.wrapper.F
+            lmi_vars = [c.expr for c in sv.problem.constraints if c.kind == 'psd' and c.expr is not Gvar]
+            Ms = [v._value for v in lmi_vars]
+        else:
+            Ms = [sv.barx[l + 1] for l in range(len(pep._list_of_psd_sent_to_wrapper))]
+        Gd = {(p_, q_): G[p_.counter, q_.counter] for p_ in Point.list_of_leaf_points for q_ in Point.list_of_leaf_points}
+        Fd = {e_: Fv[e_.counter] for e_ in Expression.list_of_leaf_expressions}
+        for l, psd in enumerate(pep._list_of_psd_sent_to_wrapper):
+            if l >= len(Ms):
+                break
+            for i in range(psd.shape[0]):
+                for j in range(psd.shape[1]):
+                    env.check_eq(den_expr_gram(psd[i, j], Gd, Fd), Ms[l][i, j], "entry (%d,%d) of a sent LMI, evaluated at the "
+                                 "returned instance, is not the entry of the PSD matrix the solver reports for it (the matrix "
+                                 "as written need not be symmetric / PSD there)" % (i, j), signature=tag + ":lmi-holds",
+                                 pools=('primal%d' % (len(stub.solves) - 1),))
+    if not env.sym:
+        for psd in pep._list_of_psd_sent_to_wrapper:
+            Mv = np.asarray(psd.eval(), dtype=float)
+            sc_ = 1 + np.abs(Mv).max()
+            env.check(np.abs(Mv - Mv.T).max() <= 2e-3 * sc_ and np.linalg.eigvalsh((Mv + Mv.T) / 2).min() >= -2e-3 * sc_,
+                      "a sent LMI is not symmetric PSD at the returned instance: %s" % Mv.tolist(), signature=tag + ":lmi-holds")
     # ---- (d) the primal value ------------------------------------------------------------------------------------
     env.check_eq(tau, Fv[pep.objective.counter], "value returned in primal mode is not the objective leaf's value",
                  signature=tag + ":primal-value")
@@ -286,6 +315,7 @@ def cases(tier):
     add("tiny-2metrics", tiny=True, check_gram=False, metrics=2)
     add("gd", metrics=2)
     add("gd-lmi", lmis=['sym2'])
+    add("gd-lmi-nonsym", lmis=['nonsym2'])
     add("convex-prox", fclass='convex', steps=['prox'], metrics=2)
     add("qg-late-leaf", fclass='qg', stationary=False)
     add("gd-trace", dimred='trace')
